@@ -92,32 +92,31 @@ Theorem C13_rendering_total_with_tables :
 Proof. exact rendering_total_tables. Qed.
 Print Assumptions C13_rendering_total_with_tables.
 
-(* the exact condition under which closing a table cell succeeds: the caret's rightmost spine reaches a row (and a cell, when a horizontally merged cell is duplicated); otherwise IndexError *)
-Theorem C13_close_cell_exact :
+(* closing a table cell ALWAYS succeeds once its properties gather and its gridSpan parses (after the repair 3e5b9ea: formerly IndexError when wrappers inside the cell had left no row or cell to merge into), and the invariant is preserved *)
+Theorem C13_close_cell_total :
   forall v e ks s pr g,
   J s -> gather_Pr e ks = Ok pr -> span_of pr = Ok g ->
-  ((exists s', close_table_cell v e ks s = Ok s')
-   <-> spine_ok 3 (c_tree s) /\ (env_dup v = true -> (1 < g)%Z -> spine_ok 4 (c_tree s))).
-Proof. exact close_table_cell_ok_iff. Qed.
-Print Assumptions C13_close_cell_exact.
+  exists s', close_table_cell v e ks s = Ok s' /\ J s'.
+Proof. exact close_table_cell_total_now. Qed.
+Print Assumptions C13_close_cell_total.
 
-(* FINDING (replayed on /repo): a gridSpan cell whose content is a wrapper holding a paragraph and then a nested content control raises IndexError with duplicate_merged_cells=True (fine with False): the structural clause cannot be weakened to 'the cell contains a paragraph' *)
-Theorem C13_nested_controls_in_merged_cell_refuted :
+(* the former finding (a gridSpan cell whose content is a wrapper holding a paragraph and then a nested content control raised IndexError with duplicate_merged_cells=True; found by this proof, replayed on /repo, repaired): it is extracted under both settings *)
+Theorem C13_nested_controls_in_merged_cell_repaired :
   exists t, forall html,
     all_local_ok2_weak (tt_env html true) t = true
-    /\ collect_from (tt_env html true) [] t = Err IndexError
+    /\ (exists s, collect_from (tt_env html true) [] t = Ok s)
     /\ all_local_ok2_weak (tt_env html false) t = true
     /\ exists s, collect_from (tt_env html false) [] t = Ok s.
-Proof. exact walk_total_tables_dup_counterexample. Qed.
-Print Assumptions C13_nested_controls_in_merged_cell_refuted.
+Proof. exact walk_total_tables_dup_repaired. Qed.
+Print Assumptions C13_nested_controls_in_merged_cell_repaired.
 
-(* likewise a cell whose only block is a custom-XML wrapper holding a wrapped paragraph and then a nested table (both settings) *)
-Theorem C13_wrapped_nested_table_refuted :
+(* likewise the cell whose only block is a custom-XML wrapper holding a wrapped paragraph and then a nested table *)
+Theorem C13_wrapped_nested_table_repaired :
   exists t, forall html dup,
     all_local_ok2_weak (tt_env html dup) t = true
-    /\ collect_from (tt_env html dup) [] t = Err IndexError.
-Proof. exact walk_total_tables_counterexample. Qed.
-Print Assumptions C13_wrapped_nested_table_refuted.
+    /\ exists s, collect_from (tt_env html dup) [] t = Ok s.
+Proof. exact walk_total_tables_repaired. Qed.
+Print Assumptions C13_wrapped_nested_table_repaired.
 
 (* the table-free hypothesis of C13_walk_total is a special case *)
 Theorem C13_earlier_theorem_is_an_instance :
@@ -125,3 +124,35 @@ Theorem C13_earlier_theorem_is_an_instance :
   forall t, all_local_ok' v t = true -> all_local_ok2 v t = true.
 Proof. exact all_local_ok'_all_local_ok2. Qed.
 Print Assumptions C13_earlier_theorem_is_an_instance.
+
+(* TOTALITY WITHOUT ANY STRUCTURAL HYPOTHESIS: for EVERY element tree - tables, merged cells, nested tables, text boxes, content controls, comment ranges, any nesting - if each single element's local evaluation succeeds (required ids present, numbers parse, check-box and drop-down values known, formatting renders to non-blank tags, cell properties gather and gridSpan parses), the whole walk succeeds, for both settings of duplicate_merged_cells *)
+Theorem C13_walk_total_all :
+  forall v path t, all_local_ok3 v t = true ->
+  exists s, collect_from v path t = Ok s.
+Proof. exact collect_total_all. Qed.
+Print Assumptions C13_walk_total_all.
+
+(* from any reachable state, preserving the invariant *)
+Theorem C13_walk_total_all_from_any_state :
+  forall v t path s, all_local_ok3 v t = true -> J s ->
+  exists s', walk v path t s = Ok s' /\ J s'.
+Proof. exact walk_total_all. Qed.
+Print Assumptions C13_walk_total_all_from_any_state.
+
+(* and all three views render *)
+Theorem C13_rendering_total_all :
+  forall v path t, all_local_ok3 v t = true ->
+  exists s ps rs r,
+    collect_from v path t = Ok s
+    /\ pars_at 4 (c_tree s) = Ok ps
+    /\ mapM (par_run_strings (html_on v)) ps = Ok rs
+    /\ get_par_strings (html_on v) (pars_view s) = Ok r.
+Proof. exact rendering_total_all. Qed.
+Print Assumptions C13_rendering_total_all.
+
+(* even a table cell without any paragraph (which ECMA-376 calls corrupt) no longer raises *)
+Theorem C13_empty_cell_repaired :
+  forall html dup, exists s, collect_from (tt_env html dup) [] (tt_tbl [tt_tr [tt_tc []]]) = Ok s
+                             /\ c_tree s = [].
+Proof. exact cell_without_paragraph_repaired. Qed.
+Print Assumptions C13_empty_cell_repaired.
